@@ -307,14 +307,17 @@ pub fn spec() -> PropSpec {
       },
       Check {
         name: "single-faults",
-        rule: "every byte of the encoded share k x 5 byte faults, plus whole-element replacements of x and y by 0, 1, p-1, the next share's value, the other coordinate, re-decoded; every sequence over {F, h_0..h_t} containing F; through adss::recover and through sta_rs::share_recover; distinct = (share, offset, fault) that still decode",
+        rule: "message/coins of 32, 5 and 41 bytes (coins longer than one 32-byte key block); every byte of the encoded share k x 5 byte faults, plus whole-element replacements of x and y by 0, 1, p-1, the next share's value, the other coordinate, re-decoded; every sequence over {F, h_0..h_t} containing F; through adss::recover and through sta_rs::share_recover; distinct = (share, offset, fault) that still decode",
         gen: |tier| {
           let mut v = vec![];
           let ts: &[u64] = if tier.thorough() { &[1, 2, 3, 4] } else { &[1, 2, 3] };
           for &t in ts {
             for k in [0u64, t] {
-              for (mlen, star) in [(32u64, false), (5, true)] {
-                if !tier.thorough() && star && k != 0 {
+              for (mlen, star) in [(32u64, false), (5, true), (41, false)] {
+                if !tier.thorough() && (star || mlen == 41) && k != 0 {
+                  continue;
+                }
+                if mlen == 41 && t > 2 && !tier.thorough() {
                   continue;
                 }
                 let len = 4 + 4 + 48 + 4 + mlen + 4 + mlen + 64;
